@@ -23,7 +23,7 @@ def run(tier, seed):
                 'not decided / not reachable: tokenising RAW/DYR text, the yaml-driven DYR mapping, three-winding transformers, '
                 'xlsx / json round trips (pandas, openpyxl): bounded native stand-in on three stock cases only')
     items = [(F.numparam_add('C13'),), (F.sanitize('C13'),), (F.mpc2system('C13'), None, F.replay_mpc_roundtrip), (F.system2mpc('C13'), None, F.replay_mpc_roundtrip),
-             (F.psse_bus('C13'),), (F.psse_load('C13'),), (F.psse_fshunt('C13'),), (F.psse_gen('C13'),), (F.psse_line('C13'),),
+             (F.psse_bus('C13'),), (F.psse_load('C13'), None, F.replay_psse_load), (F.psse_fshunt('C13'),), (F.psse_gen('C13'),), (F.psse_line('C13'),),
              (F.psse_transf2('C13'), F.WIT_TRANSF, F.replay_transf)]
     # the table handed to the xlsx / json writers (cache.df_in): input-base values, converters applied to those
     from contracts import fn_pu
